@@ -105,13 +105,16 @@ def FrameTy (p : Prog) (n : Int) (pc : Nat) (o : Op) (b2 : Bool) (S : STy) (d : 
   | .forejump, false, [cp] => τ' = τ ∧ cl' = cp ∧ 0 ≤ cp ∧ cp ≤ cl
   | _, _, _ => False
 
-/-- **the chain**: see the head of the file -/
+/-- **the chain**: see the head of the file.  The premise `τ.length ≤ S.length + 2` (slice-stackcap) records that the
+    grouping stack with which a frame is resumed is at most two slots higher than the type assigned to the frame's
+    instruction — what bounds the depth of the grouping stack in Back / Back2 mode (Lemmas/StackCapacity.lean). -/
 inductive Good (p : Prog) (bs : List Nat) (n : Int) (a : Assign) : List Int → RTy → Int → Prop
   | root : Good p bs n a [0] [] 0
   | cons (c : Int) (o : Op) (d rest : List Int) (S : STy) (τ τ' : RTy) (cl cl' : Int) :
       (savedPos c).1 ∈ bs → opAt p (savedPos c).1 = some o → frameData o (savedPos c).2 = some d.length →
       a.get (savedPos c).1 = some S →
       FrameTy p n (savedPos c).1 o (savedPos c).2 S d ((rest.length : Int) + 1) τ cl τ' cl' →
+      τ.length ≤ S.length + 2 →
       Good p bs n a rest τ' cl' → Good p bs n a (c :: (d ++ rest)) τ cl
 
 /-! ### basic facts -/
@@ -158,6 +161,20 @@ theorem Kind.sub_refl (k : Kind) : k.sub k = true := by cases k <;> rfl
 theorem subTy_refl : ∀ σ : STy, subTy σ σ = true
   | [] => rfl
   | k :: σ => by simp [subTy, Kind.sub_refl, subTy_refl σ]
+
+theorem subTy_length : ∀ {σ τ : STy}, subTy σ τ = true → σ.length = τ.length
+  | [], [], _ => rfl
+  | _ :: s, _ :: t, h => by
+    simp only [subTy, Bool.and_eq_true] at h
+    simp [subTy_length h.2]
+  | [], _ :: _, h => by simp [subTy] at h
+  | _ :: _, [], h => by simp [subTy] at h
+
+theorem erase_length (τ : RTy) : (erase τ).length = τ.length := by simp [erase]
+
+/-- a refined type below `S` has the height of `S` -/
+theorem sub_len {τ : RTy} {S : STy} (h : subTy (erase τ) S = true) : τ.length = S.length := by
+  rw [← erase_length, subTy_length h]
 
 theorem Kind.sub_trans {a b c : Kind} (h1 : a.sub b = true) (h2 : b.sub c = true) : a.sub c = true := by
   cases a <;> cases b <;> cases c <;> first | rfl | (exact absurd h1 (by decide)) | (exact absurd h2 (by decide))
@@ -230,7 +247,7 @@ theorem pair_lookup {core : List Int} {τ : RTy} {cl : Int} (h : Good p bs n a c
     ∀ (pre : RTy) (cd td : Int) (ρ : RTy), τ = pre ++ .cd cd :: .td td :: ρ → Found p bs n a core cl cd td ρ := by
   induction h with
   | root => intro pre cd td ρ e; cases pre <;> cases e
-  | cons c o d rest S τ τ' cl cl' h1 h2 h3 h4 hft hg ih =>
+  | cons c o d rest S τ τ' cl cl' h1 h2 h3 h4 hft _hlen hg ih =>
     intro pre cd td ρ e
     have hs := frameSize_of h2 h3
     -- the three generic shapes
@@ -384,19 +401,19 @@ theorem good_push (c : Ctx p bs env s w o) (b2 : Bool) (d core : List Int) (S : 
     (hd : frameData o b2 = some d.length) (hne : b2 = true → o ≠ .lazybranch)
     (hS : a.get s.codepos = some S)
     (hft : FrameTy p env.len s.codepos o b2 S d ((core.length : Int) + 1) τ cl τ' cl')
-    (hg : Good p bs env.len a core τ' cl') :
+    (hg : Good p bs env.len a core τ' cl') (hlen : τ.length ≤ S.length + 2) :
     Good p bs env.len a ((if b2 then -(s.codepos : Int) else (s.codepos : Int)) :: (d ++ core)) τ cl := by
   cases b2 with
   | false =>
     simp only [Bool.false_eq_true, ite_false]
     have hs := savedPos_pos s.codepos
     exact Good.cons _ o d core S τ τ' cl cl' (by rw [hs]; exact c.pcIn) (by rw [hs]; exact ctx_opAt c)
-      (by rw [hs]; exact hd) (by rw [hs]; exact hS) (by rw [hs]; exact hft) hg
+      (by rw [hs]; exact hd) (by rw [hs]; exact hS) (by rw [hs]; exact hft) hlen hg
   | true =>
     simp only [ite_true]
     have hs := savedPos_neg s.codepos (codepos_ne_zero c (hne rfl))
     exact Good.cons _ o d core S τ τ' cl cl' (by rw [hs]; exact c.pcIn) (by rw [hs]; exact ctx_opAt c)
-      (by rw [hs]; exact hd) (by rw [hs]; exact hS) (by rw [hs]; exact hft) hg
+      (by rw [hs]; exact hd) (by rw [hs]; exact hS) (by rw [hs]; exact hft) hlen hg
 
 end cases
 
